@@ -368,4 +368,398 @@ theorem dEp_xEp (o : Opts) (vp : Dict Props) (e : EP) (hvp : PropsOK vp)
   simp only [dLabel_xLabel _ hl, Option.bind_some, List.nil_append, mkArgs_nodup _ (sortArgs_nodup hn)]
   rfl
 
+theorem xLabel_tag (l : Str) : (xLabel l).tag = "label" := rfl
+
+theorem dHcons_node' (rel rhs : Str) (x y : Xml) (mh : Mention) (hx : x.tag = "var") (hd : dVar x = some mh)
+    (hy : y.tag = "label") (hdy : dLabel y = some rhs) :
+    dHcons (xEl "hcons" [("hreln", rel)] [xEl "hi" [] [x], xEl "lo" [] [y]])
+      = some ({ lhs := mh.1, rel := rel, rhs := rhs }, [mh]) := by
+  cases x with
+  | node t a tx cs =>
+    cases y with
+    | node t' a' tx' cs' =>
+      simp only [Xml.tag] at hx hy
+      subst hx; subst hy
+      simp [dHcons, xEl, Xml.find, Xml.children, Xml.tag, Xml.attr, Xml.attrs, hd, hdy]
+
+theorem dHcons_node (rel rhs : Str) (x : Xml) (mh : Mention) (hx : x.tag = "var") (hd : dVar x = some mh)
+    (hr : varSort rhs = ['h']) :
+    dHcons (xEl "hcons" [("hreln", rel)] [xEl "hi" [] [x], xEl "lo" [] [xLabel rhs]])
+      = some ({ lhs := mh.1, rel := rel, rhs := rhs }, [mh]) :=
+  dHcons_node' rel rhs x _ mh hx hd rfl (dLabel_xLabel _ hr)
+
+theorem dIcons_node (rel : Str) (x y : Xml) (ml mr : Mention) (hx : x.tag = "var") (hy : y.tag = "var")
+    (hdx : dVar x = some ml) (hdy : dVar y = some mr) :
+    dIcons (xEl "icons" [("ireln", rel)] [xEl "left" [] [x], xEl "right" [] [y]])
+      = some ({ lhs := ml.1, rel := rel, rhs := mr.1 }, [ml, mr]) := by
+  cases x with
+  | node t a tx cs =>
+    cases y with
+    | node t' a' tx' cs' =>
+      simp only [Xml.tag] at hx hy
+      subst hx; subst hy
+      simp [dIcons, xEl, Xml.find, Xml.children, Xml.tag, Xml.attr, Xml.attrs, hdx, hdy]
+
+theorem xEps_cons (o : Opts) (vp : Dict Props) (e : EP) (rest : List EP) :
+    xEps o vp (e :: rest) = ((xEp o vp e).1 :: (xEps o (xEp o vp e).2 rest).1, (xEps o (xEp o vp e).2 rest).2) := rfl
+
+theorem xHcons_cons (vp : Dict Props) (c : Cons) (rest : List Cons) :
+    xHcons vp (c :: rest) =
+      (xEl "hcons" [("hreln", c.rel)] [xEl "hi" [] [(xVar vp c.lhs).1], xEl "lo" [] [xLabel c.rhs]]
+          :: (xHcons (xVar vp c.lhs).2 rest).1, (xHcons (xVar vp c.lhs).2 rest).2) := rfl
+
+theorem xIcons_cons (vp : Dict Props) (c : Cons) (rest : List Cons) :
+    xIcons vp (c :: rest) =
+      (xEl "icons" [("ireln", c.rel)] [xEl "left" [] [(xVar vp c.lhs).1], xEl "right" [] [(xVar (xVar vp c.lhs).2 c.rhs).1]]
+          :: (xIcons (xVar (xVar vp c.lhs).2 c.rhs).2 rest).1, (xIcons (xVar (xVar vp c.lhs).2 c.rhs).2 rest).2) := rfl
+
+def EpOK (e : EP) : Prop :=
+  varSort e.label = ['h'] ∧ stripPred e.pred = e.pred ∧ (∀ a ∈ e.args, upper a.1 = a.1)
+    ∧ (e.args.map (·.1)).Nodup ∧ (∀ a ∈ e.args, a.1 ≠ CARG → lower a.2 = a.2)
+
+theorem mapMOpt_xEps (o : Opts) : ∀ (es : List EP) (vp : Dict Props), PropsOK vp → (∀ e ∈ es, EpOK e) →
+    ∃ L, mapMOpt dEp (xEps o vp es).1 = some L ∧ L.map (·.1) = es.map (epViewX o)
+      ∧ L.flatMap (·.2) = (mentVars vp (es.flatMap epVarPos)).1
+      ∧ (xEps o vp es).2 = (mentVars vp (es.flatMap epVarPos)).2 := by
+  intro es
+  induction es with
+  | nil => intro vp _ _; exact ⟨[], rfl, rfl, rfl, rfl⟩
+  | cons e rest ih =>
+    intro vp hvp hes
+    obtain ⟨h1, h2, h3, h4, h5⟩ := hes e (by simp)
+    have hd := dEp_xEp o vp e hvp h1 h2 h3 h4 h5
+    have hvp' : PropsOK (xEp o vp e).2 := by rw [hd.2]; exact PropsOK_mentVars _ _ hvp
+    obtain ⟨L, hL1, hL2, hL3, hL4⟩ := ih (xEp o vp e).2 hvp' (fun e he => hes e (by simp [he]))
+    refine ⟨(epViewX o e, (mentVars vp (epVarPos e)).1) :: L, ?_, ?_, ?_, ?_⟩
+    · rw [xEps_cons]; simp only [mapMOpt, hd.1, hL1]
+    · simp [hL2]
+    · simp only [List.flatMap_cons, hL3, SimpleL.mentVars_append, hd.2]
+    · rw [xEps_cons]
+      show (xEps o (xEp o vp e).2 rest).2 = _
+      rw [hL4, hd.2]; simp only [List.flatMap_cons, SimpleL.mentVars_append]
+
+theorem mapMOpt_xHcons : ∀ (cs : List Cons) (vp : Dict Props), PropsOK vp →
+    (∀ c ∈ cs, lower c.lhs = c.lhs ∧ varSort c.rhs = ['h']) →
+    ∃ L, mapMOpt dHcons (xHcons vp cs).1 = some L ∧ L.map (·.1) = cs
+      ∧ L.flatMap (·.2) = (mentVars vp (cs.map (·.lhs))).1
+      ∧ (xHcons vp cs).2 = (mentVars vp (cs.map (·.lhs))).2 := by
+  intro cs
+  induction cs with
+  | nil => intro vp _ _; exact ⟨[], rfl, rfl, rfl, rfl⟩
+  | cons c rest ih =>
+    intro vp hvp hcs
+    obtain ⟨h1, h2⟩ := hcs c (by simp)
+    have hd := dHcons_node c.rel c.rhs _ _ (xVar_tag vp c.lhs) (dVar_xVar vp c.lhs hvp h1) h2
+    have hvp' : PropsOK (xVar vp c.lhs).2 := by rw [xVar_snd]; exact PropsOK_mentVar hvp _
+    obtain ⟨L, hL1, hL2, hL3, hL4⟩ := ih (xVar vp c.lhs).2 hvp' (fun c hc => hcs c (by simp [hc]))
+    refine ⟨({ lhs := (mentVar vp c.lhs).1.1, rel := c.rel, rhs := c.rhs }, [(mentVar vp c.lhs).1]) :: L, ?_, ?_, ?_, ?_⟩
+    · rw [xHcons_cons]; simp only [mapMOpt, hd, hL1]
+    · simp [hL2, mentVar_fst_fst]
+    · simp only [List.flatMap_cons, hL3, List.map_cons, SimpleL.mentVars_cons, xVar_snd]; rfl
+    · rw [xHcons_cons]
+      show (xHcons (xVar vp c.lhs).2 rest).2 = _
+      rw [hL4, xVar_snd]; rfl
+
+theorem mapMOpt_xIcons : ∀ (cs : List Cons) (vp : Dict Props), PropsOK vp →
+    (∀ c ∈ cs, lower c.lhs = c.lhs ∧ lower c.rhs = c.rhs) →
+    ∃ L, mapMOpt dIcons (xIcons vp cs).1 = some L ∧ L.map (·.1) = cs
+      ∧ L.flatMap (·.2) = (mentVars vp (cs.flatMap (fun c => [c.lhs, c.rhs]))).1 := by
+  intro cs
+  induction cs with
+  | nil => intro vp _ _; exact ⟨[], rfl, rfl, rfl⟩
+  | cons c rest ih =>
+    intro vp hvp hcs
+    obtain ⟨h1, h2⟩ := hcs c (by simp)
+    have hvp1 : PropsOK (xVar vp c.lhs).2 := by rw [xVar_snd]; exact PropsOK_mentVar hvp _
+    have hvp2 : PropsOK (xVar (xVar vp c.lhs).2 c.rhs).2 := by rw [xVar_snd]; exact PropsOK_mentVar hvp1 _
+    have hd := dIcons_node c.rel _ _ _ _ (xVar_tag vp c.lhs) (xVar_tag (xVar vp c.lhs).2 c.rhs)
+      (dVar_xVar vp c.lhs hvp h1) (dVar_xVar _ c.rhs hvp1 h2)
+    obtain ⟨L, hL1, hL2, hL3⟩ := ih _ hvp2 (fun c hc => hcs c (by simp [hc]))
+    refine ⟨({ lhs := (mentVar vp c.lhs).1.1, rel := c.rel, rhs := (mentVar (xVar vp c.lhs).2 c.rhs).1.1 },
+        [(mentVar vp c.lhs).1, (mentVar (xVar vp c.lhs).2 c.rhs).1]) :: L, ?_, ?_, ?_⟩
+    · rw [xIcons_cons]; simp only [mapMOpt, hd, hL1]
+    · simp [hL2, mentVar_fst_fst]
+    · simp only [List.flatMap_cons, hL3, List.cons_append, List.nil_append, SimpleL.mentVars_cons, xVar_snd]
+
+/-! ### layer 7: iter / find on the mrs node -/
+
+def T3 (t : String) : Prop := t = "ep" ∨ t = "hcons" ∨ t = "icons"
+
+theorem iterL_append (t : String) (a b : List Xml) : Xml.iterL t (a ++ b) = Xml.iterL t a ++ Xml.iterL t b := by
+  induction a with
+  | nil => simp [Xml.iterL]
+  | cons x xs ih => simp [Xml.iterL, ih]
+
+theorem iterL_extrapair_nil (t : String) (ht : T3 t) (ps : List (Str × Str)) :
+    Xml.iterL t (ps.map xExtrapair) = [] := by
+  induction ps with
+  | nil => simp [Xml.iterL]
+  | cons p ps ih =>
+    simp only [List.map_cons, Xml.iterL, ih]
+    rcases ht with rfl | rfl | rfl <;> simp [xExtrapair, xEl, xTx, Xml.iter, Xml.iterL]
+
+theorem iter_xVar (t : String) (ht : T3 t) (vp : Dict Props) (v : Str) : Xml.iter t (xVar vp v).1 = [] := by
+  rw [xVar_fst]
+  simp only [xEl, Xml.iter, iterL_extrapair_nil t ht]
+  rcases ht with rfl | rfl | rfl <;> simp
+
+theorem iter_xLabel (t : String) (ht : T3 t) (l : Str) : Xml.iter t (xLabel l) = [] := by
+  rcases ht with rfl | rfl | rfl <;> simp [xLabel, xEl, Xml.iter, Xml.iterL]
+
+theorem iter_xPred (t : String) (ht : T3 t) (p : Str) : Xml.iter t (xPred p) = [] := by
+  unfold xPred
+  split
+  · rcases ht with rfl | rfl | rfl <;> simp [xEl, Xml.iter, Xml.iterL]
+  · split <;> rcases ht with rfl | rfl | rfl <;> simp [xTx, Xml.iter, Xml.iterL]
+
+theorem iterL_xArgs (t : String) (ht : T3 t) : ∀ (as : Dict Str) (vp : Dict Props), Xml.iterL t (xArgs vp as).1 = [] := by
+  intro as
+  induction as with
+  | nil => intro vp; simp [xArgs, Xml.iterL]
+  | cons a rest ih =>
+    intro vp
+    obtain ⟨role, val⟩ := a
+    by_cases hr : role = CARG
+    · subst hr
+      rw [xArgs_carg]
+      simp only [Xml.iterL, ih]
+      rcases ht with rfl | rfl | rfl <;> simp [xEl, xTx, Xml.iter, Xml.iterL]
+    · rw [xArgs_var _ _ _ _ hr]
+      simp only [Xml.iterL, ih]
+      have hx := iter_xVar t ht vp val
+      rcases ht with rfl | rfl | rfl <;> simp [xEl, xTx, Xml.iter, Xml.iterL, hx]
+
+theorem iter_xEp (t : String) (ht : T3 t) (o : Opts) (vp : Dict Props) (e : EP) :
+    Xml.iter t (xEp o vp e).1 = if t = "ep" then [(xEp o vp e).1] else [] := by
+  rw [xEp_eq]
+  simp only [xEl, Xml.iter, Xml.iterL, iter_xPred t ht, iter_xLabel t ht, iterL_xArgs t ht]
+  rcases ht with rfl | rfl | rfl <;> simp
+
+theorem iterL_xEps (t : String) (ht : T3 t) (o : Opts) : ∀ (es : List EP) (vp : Dict Props),
+    Xml.iterL t (xEps o vp es).1 = if t = "ep" then (xEps o vp es).1 else [] := by
+  intro es
+  induction es with
+  | nil => intro vp; simp [xEps, Xml.iterL]
+  | cons e rest ih =>
+    intro vp
+    rw [xEps_cons]
+    simp only [Xml.iterL, ih, iter_xEp t ht]
+    split <;> simp
+
+theorem iterL_xHcons (t : String) (ht : T3 t) : ∀ (cs : List Cons) (vp : Dict Props),
+    Xml.iterL t (xHcons vp cs).1 = if t = "hcons" then (xHcons vp cs).1 else [] := by
+  intro cs
+  induction cs with
+  | nil => intro vp; simp [xHcons, Xml.iterL]
+  | cons c rest ih =>
+    intro vp
+    rw [xHcons_cons]
+    simp only [Xml.iterL, ih]
+    have hx := iter_xVar t ht vp c.lhs
+    have hl := iter_xLabel t ht c.rhs
+    rcases ht with rfl | rfl | rfl <;> simp [xEl, Xml.iter, Xml.iterL, hx, hl]
+
+theorem iterL_xIcons (t : String) (ht : T3 t) : ∀ (cs : List Cons) (vp : Dict Props),
+    Xml.iterL t (xIcons vp cs).1 = if t = "icons" then (xIcons vp cs).1 else [] := by
+  intro cs
+  induction cs with
+  | nil => intro vp; simp [xIcons, Xml.iterL]
+  | cons c rest ih =>
+    intro vp
+    rw [xIcons_cons]
+    simp only [Xml.iterL, ih]
+    have hx := iter_xVar t ht vp c.lhs
+    have hy := iter_xVar t ht (xVar vp c.lhs).2 c.rhs
+    rcases ht with rfl | rfl | rfl <;> simp [xEl, Xml.iter, Xml.iterL, hx, hy]
+
+theorem xEps_tags (o : Opts) : ∀ (es : List EP) (vp : Dict Props), ∀ x ∈ (xEps o vp es).1, x.tag = "ep" := by
+  intro es
+  induction es with
+  | nil => intro vp x hx; simp [xEps] at hx
+  | cons e rest ih =>
+    intro vp x hx
+    rw [xEps_cons] at hx
+    simp only [List.mem_cons] at hx
+    rcases hx with hx | hx
+    · subst hx; rfl
+    · exact ih _ x hx
+
+theorem xHcons_tags : ∀ (cs : List Cons) (vp : Dict Props), ∀ x ∈ (xHcons vp cs).1, x.tag = "hcons" := by
+  intro cs
+  induction cs with
+  | nil => intro vp x hx; simp [xHcons] at hx
+  | cons c rest ih =>
+    intro vp x hx
+    rw [xHcons_cons] at hx
+    simp only [List.mem_cons] at hx
+    rcases hx with hx | hx
+    · subst hx; rfl
+    · exact ih _ x hx
+
+theorem xIcons_tags : ∀ (cs : List Cons) (vp : Dict Props), ∀ x ∈ (xIcons vp cs).1, x.tag = "icons" := by
+  intro cs
+  induction cs with
+  | nil => intro vp x hx; simp [xIcons] at hx
+  | cons c rest ih =>
+    intro vp x hx
+    rw [xIcons_cons] at hx
+    simp only [List.mem_cons] at hx
+    rcases hx with hx | hx
+    · subst hx; rfl
+    · exact ih _ x hx
+
+theorem find_none (l : List Xml) (s t : String) (h : ∀ x ∈ l, x.tag = s) (hne : s ≠ t) :
+    l.find? (fun x => decide (x.tag = t)) = none := by
+  rw [List.find?_eq_none]
+  intro x hx
+  simp [h x hx, hne]
+
+/-! ### layer 8: assembly -/
+
+def ixPair (vp0 : Dict Props) (ix : Option Str) : List Xml × Dict Props :=
+  match ix with
+  | none => ([], vp0)
+  | some i => ([(xVar vp0 i).1], (xVar vp0 i).2)
+
+def topX (top : Option Str) : List Xml := match top with | none => [] | some t => [xLabel t]
+
+def mrsAttrs (o : Opts) (m : MRS) : List (String × Str) :=
+  (if o.lnk then [("cfrom", intStr m.lnk.cfrom), ("cto", intStr m.lnk.cto)]
+      ++ (match m.surface with | none => [] | some s => [("surface", s)]) else [])
+    ++ (match m.ident with | none => [] | some s => [("ident", s)])
+
+theorem toXml_eq (o : Opts) (m : MRS) (vp0 : Dict Props) (hvp : vp0 = if o.properties then m.vars else []) :
+    toXml o m = xEl "mrs" (mrsAttrs o m)
+      (topX m.top ++ (ixPair vp0 m.index).1 ++ (xEps o (ixPair vp0 m.index).2 m.rels).1
+        ++ (xHcons (xEps o (ixPair vp0 m.index).2 m.rels).2 m.hcons).1
+        ++ (xIcons (xHcons (xEps o (ixPair vp0 m.index).2 m.rels).2 m.hcons).2 m.icons).1) := by
+  subst hvp
+  unfold toXml ixPair mrsAttrs topX
+  cases m.index <;> rfl
+
+theorem ixPair_snd (vp0 : Dict Props) (ix : Option Str) : (ixPair vp0 ix).2 = (mentVars vp0 ix.toList).2 := by
+  cases ix with
+  | none => rfl
+  | some i => exact xVar_snd vp0 i
+
+theorem ixPair_tags (vp0 : Dict Props) (ix : Option Str) : ∀ x ∈ (ixPair vp0 ix).1, x.tag = "var" := by
+  cases ix with
+  | none => intro x hx; simp [ixPair] at hx
+  | some i => intro x hx; simp [ixPair] at hx; subst hx; exact xVar_tag vp0 i
+
+theorem ixPair_iter (t : String) (ht : T3 t) (vp0 : Dict Props) (ix : Option Str) :
+    Xml.iterL t (ixPair vp0 ix).1 = [] := by
+  cases ix with
+  | none => simp [ixPair, Xml.iterL]
+  | some i => simp [ixPair, Xml.iterL, iter_xVar t ht]
+
+theorem topX_tags (top : Option Str) : ∀ x ∈ topX top, x.tag = "label" := by
+  cases top with
+  | none => intro x hx; simp [topX] at hx
+  | some t => intro x hx; simp [topX] at hx; subst hx; rfl
+
+theorem topX_iter (t : String) (ht : T3 t) (top : Option Str) : Xml.iterL t (topX top) = [] := by
+  cases top with
+  | none => simp [topX, Xml.iterL]
+  | some i => simp [topX, Xml.iterL, iter_xLabel t ht]
+
+theorem mrsAttrs_look (o : Opts) (m : MRS) (cs : List Xml) :
+    dLnk ((xEl "mrs" (mrsAttrs o m) cs).attr "cfrom") ((xEl "mrs" (mrsAttrs o m) cs).attr "cto")
+        = some (if o.lnk then .charspan m.lnk.cfrom m.lnk.cto else .unspec)
+      ∧ (xEl "mrs" (mrsAttrs o m) cs).attr "surface" = (if o.lnk then m.surface else none)
+      ∧ (xEl "mrs" (mrsAttrs o m) cs).attr "ident" = m.ident := by
+  obtain ⟨pr, lk⟩ := o
+  cases lk <;> cases m.surface <;> cases m.ident <;>
+    simp [mrsAttrs, Xml.attr, xEl, Xml.attrs, dLnk, parseInt_intStr]
+
+theorem find_label (at_ : List (String × Str)) (top : Option Str) (B E H I : List Xml)
+    (htop : ∀ t, top = some t → varSort t = ['h'])
+    (hB : ∀ x ∈ B, x.tag = "var") (hE : ∀ x ∈ E, x.tag = "ep") (hH : ∀ x ∈ H, x.tag = "hcons")
+    (hI : ∀ x ∈ I, x.tag = "icons") :
+    (match (xEl "mrs" at_ (topX top ++ B ++ E ++ H ++ I)).find "label" with
+      | none => some none
+      | some l => (dLabel l).map some) = some top := by
+  simp only [Xml.find, xEl, Xml.children, List.find?_append, find_none B _ _ hB (by decide),
+    find_none E _ _ hE (by decide), find_none H _ _ hH (by decide), find_none I _ _ hI (by decide),
+    Option.or_none]
+  cases top with
+  | none => simp [topX]
+  | some t => simp [topX, xLabel_tag, dLabel_xLabel t (htop t rfl)]
+
+theorem find_var (at_ : List (String × Str)) (top ix : Option Str) (vp0 : Dict Props) (E H I : List Xml)
+    (hvp : PropsOK vp0) (hix : ∀ i, ix = some i → lower i = i)
+    (hE : ∀ x ∈ E, x.tag = "ep") (hH : ∀ x ∈ H, x.tag = "hcons")
+    (hI : ∀ x ∈ I, x.tag = "icons") :
+    (match (xEl "mrs" at_ (topX top ++ (ixPair vp0 ix).1 ++ E ++ H ++ I)).find "var" with
+      | none => some none
+      | some v => (dVar v).map some) = some (ix.map (fun i => (mentVar vp0 i).1)) := by
+  simp only [Xml.find, xEl, Xml.children, List.find?_append, find_none _ _ _ (topX_tags top) (by decide),
+    find_none E _ _ hE (by decide), find_none H _ _ hH (by decide), find_none I _ _ hI (by decide),
+    Option.or_none, Option.none_or]
+  cases ix with
+  | none => simp [ixPair]
+  | some i => simp [ixPair, xVar_tag, dVar_xVar vp0 i hvp (hix i rfl)]
+
 end Verif.C01.MrxL
+
+namespace Verif.C01
+open Verif.Codec Verif.Tables Verif.C01.SimpleL Verif.C01.MrxL
+
+theorem ofXml_toXml (o : Opts) (m : MRS) (h : ExprX m) : ofXml (toXml o m) = some (decodedX o m) := by
+  have hvp0 : PropsOK (if o.properties = true then m.vars else []) := by
+    cases o.properties
+    · intro p hp; simp at hp
+    · exact fun p hp => h.props p hp
+  rw [toXml_eq o m _ rfl]
+  unfold decodedX mentionsX varPositionsX
+  generalize (if o.properties = true then m.vars else []) = vp0 at hvp0 ⊢
+  have hvp1 : PropsOK (ixPair vp0 m.index).2 := by rw [ixPair_snd]; exact PropsOK_mentVars _ _ hvp0
+  obtain ⟨LE, hE1, hE2, hE3, hE4⟩ := mapMOpt_xEps o m.rels (ixPair vp0 m.index).2 hvp1
+    (fun e he => ⟨h.labels e he, h.preds e he, h.roles e he, h.rolesNodup e he, h.vals e he⟩)
+  have hvp2 : PropsOK (xEps o (ixPair vp0 m.index).2 m.rels).2 := by rw [hE4]; exact PropsOK_mentVars _ _ hvp1
+  obtain ⟨LH, hH1, hH2, hH3, hH4⟩ := mapMOpt_xHcons m.hcons _ hvp2 h.hcons
+  have hvp3 : PropsOK (xHcons (xEps o (ixPair vp0 m.index).2 m.rels).2 m.hcons).2 := by
+    rw [hH4]; exact PropsOK_mentVars _ _ hvp2
+  obtain ⟨LI, hI1, hI2, hI3⟩ := mapMOpt_xIcons m.icons _ hvp3 h.icons
+  have tE := xEps_tags o m.rels (ixPair vp0 m.index).2
+  have tH := xHcons_tags m.hcons (xEps o (ixPair vp0 m.index).2 m.rels).2
+  have tI := xIcons_tags m.icons (xHcons (xEps o (ixPair vp0 m.index).2 m.rels).2 m.hcons).2
+  have e1 : T3 "ep" := Or.inl rfl
+  have e2 : T3 "hcons" := Or.inr (Or.inl rfl)
+  have e3 : T3 "icons" := Or.inr (Or.inr rfl)
+  generalize hEd : (xEps o (ixPair vp0 m.index).2 m.rels).1 = E at *
+  generalize hHd : (xHcons (xEps o (ixPair vp0 m.index).2 m.rels).2 m.hcons).1 = H at *
+  generalize hId : (xIcons (xHcons (xEps o (ixPair vp0 m.index).2 m.rels).2 m.hcons).2 m.icons).1 = I at *
+  have iterE : Xml.iter "ep" (xEl "mrs" (mrsAttrs o m) (topX m.top ++ (ixPair vp0 m.index).1 ++ E ++ H ++ I)) = E := by
+    have a1 := iterL_xEps "ep" e1 o m.rels (ixPair vp0 m.index).2
+    have a2 := iterL_xHcons "ep" e1 m.hcons (xEps o (ixPair vp0 m.index).2 m.rels).2
+    have a3 := iterL_xIcons "ep" e1 m.icons (xHcons (xEps o (ixPair vp0 m.index).2 m.rels).2 m.hcons).2
+    rw [hEd] at a1; rw [hHd] at a2; rw [hId] at a3
+    simp [xEl, Xml.iter, iterL_append, topX_iter "ep" e1, ixPair_iter "ep" e1, a1, a2, a3]
+  have iterH : Xml.iter "hcons" (xEl "mrs" (mrsAttrs o m) (topX m.top ++ (ixPair vp0 m.index).1 ++ E ++ H ++ I)) = H := by
+    have a1 := iterL_xEps "hcons" e2 o m.rels (ixPair vp0 m.index).2
+    have a2 := iterL_xHcons "hcons" e2 m.hcons (xEps o (ixPair vp0 m.index).2 m.rels).2
+    have a3 := iterL_xIcons "hcons" e2 m.icons (xHcons (xEps o (ixPair vp0 m.index).2 m.rels).2 m.hcons).2
+    rw [hEd] at a1; rw [hHd] at a2; rw [hId] at a3
+    simp [xEl, Xml.iter, iterL_append, topX_iter "hcons" e2, ixPair_iter "hcons" e2, a1, a2, a3]
+  have iterI : Xml.iter "icons" (xEl "mrs" (mrsAttrs o m) (topX m.top ++ (ixPair vp0 m.index).1 ++ E ++ H ++ I)) = I := by
+    have a1 := iterL_xEps "icons" e3 o m.rels (ixPair vp0 m.index).2
+    have a2 := iterL_xHcons "icons" e3 m.hcons (xEps o (ixPair vp0 m.index).2 m.rels).2
+    have a3 := iterL_xIcons "icons" e3 m.icons (xHcons (xEps o (ixPair vp0 m.index).2 m.rels).2 m.hcons).2
+    rw [hEd] at a1; rw [hHd] at a2; rw [hId] at a3
+    simp [xEl, Xml.iter, iterL_append, topX_iter "icons" e3, ixPair_iter "icons" e3, a1, a2, a3]
+  obtain ⟨k1, k2, k3⟩ := mrsAttrs_look o m (topX m.top ++ (ixPair vp0 m.index).1 ++ E ++ H ++ I)
+  have fl := find_label (mrsAttrs o m) m.top (ixPair vp0 m.index).1 E H I h.top (ixPair_tags vp0 m.index) tE tH tI
+  have fv := find_var (mrsAttrs o m) m.top m.index vp0 E H I hvp0 h.index tE tH tI
+  unfold ofXml
+  rw [fl, fv, iterE, iterH, iterI, hE1, hH1, hI1, k1, k2, k3]
+  simp only [Option.bind_eq_bind, Option.bind_some, Option.pure_def]
+  rw [hE2, hE3, hH2, hH3, hI2, hI3, hH4, hE4, ixPair_snd]
+  have i1 : Option.map (fun x : Mention => x.1) (Option.map (fun i => (mentVar vp0 i).1) m.index) = m.index := by
+    cases m.index <;> simp [mentVar_fst_fst]
+  have i2 : (Option.map (fun i => (mentVar vp0 i).1) m.index).toList = (mentVars vp0 m.index.toList).1 := by
+    cases m.index <;> rfl
+  rw [i1, i2]
+  simp only [SimpleL.mentVars_append]
+
+end Verif.C01
